@@ -26,6 +26,8 @@
 #include <stdlib.h>
 #include <string.h>
 #include <sys/time.h>
+
+__attribute__((weak)) unsigned verif_batch(unsigned dflt) { return dflt; } /* hook of parallel.c: built-in batch length */
 #include <unistd.h>
 
 static unsigned n_lps;
